@@ -330,7 +330,11 @@ class OpsMixin:
         try:
             return (self.lift_const(extract.module_constant(relpath, name)),)
         except (extract.ExtractError, extract.NotConstant):
-            pass
+            # ``ALIAS = OTHER_NAME`` where OTHER_NAME is imported: follow the alias
+            for st in tree.body:
+                if isinstance(st, ast.Assign) and isinstance(st.value, ast.Name) and any(isinstance(t, ast.Name) and t.id == name for t in st.targets) and st.value.id != name:
+                    if _depth_guard(self):
+                        return self.module_level(relpath, st.value.id)
         # a name imported from another repository module: follow the import (closed world: /repo only)
         src = _import_source(relpath, name)
         if src is not None:
@@ -574,6 +578,8 @@ class OpsMixin:
     def static_items(self, v):
         """python list of the items if the iterable has static length, else None"""
         v = self.resolve(v)
+        if isinstance(v, SDict) and getattr(v, "sym_items", None):
+            raise Unsupported("iteration over a dict that received symbolic keys")
         if isinstance(v, (tuple, list)):
             return list(v)
         if isinstance(v, SList):
@@ -980,6 +986,8 @@ class OpsMixin:
         if isinstance(container, SSeq):
             return self.wrap_bool(z3.Contains(container.e, z3.Unit(self.to_z3(item, "int"))))
         if isinstance(container, SDict):
+            if getattr(container, "sym_items", None):
+                raise Unsupported("membership test on a dict that received symbolic keys")
             if isinstance(item, (SStr, SInt)):
                 parts = [self.truth(self.cmp_vals("==", item, k)) for k in container.items]
                 parts = [p for p in parts if p is not False]
